@@ -8,8 +8,8 @@
 //!       against JsonScan!StdStep by spec/Trace_JsonScan.tla
 //!   c05 record <out.ndjson> seed=N inputs=N maxlen=N [mode=engines|index]
 //!       {"e":"in","fam":..,"bytes":[..],"n":len}
-//!       {"e":"out","enc":"std|simple","eng":..,"st":final state,"ib":[one positions],"ibw":words,
-//!        "bp":[one positions],"bpw":words}                 one per engine
+//!       {"e":"out","enc":"std|simple","eng":..,"st":final state,"ib":[16-bit quarters of the IB
+//!        words],"ibw":words,"bp":[16-bit quarters of the BP words],"bpw":words}    one per engine
 //!   c05 replay <in.ndjson> <out.ndjson> offsets=N
 //!       behaviours printed by TLC from spec/Gen_JsonScan.tla:
 //!       {"bytes":[..],"std":{"s":..,"ib":[..],"bp":[..],"bpn":..},"simple":{...}}
@@ -213,8 +213,8 @@ fn gen_input(r: &mut Rng, maxlen: usize) -> (&'static str, Vec<u8>) {
 
 fn out_event(enc: &str, eng: &str, o: &Obs) -> Value {
     json!({"e":"out","enc":enc,"eng":eng,"st":o.st,
-           "ib":u64s_json(&ones_of_words(&o.ib)),"ibw":o.ib.len(),
-           "bp":u64s_json(&ones_of_words(&o.bp)),"bpw":o.bp.len(),"bpl":-1})
+           "ib":quarters_json(&o.ib),"ibw":o.ib.len(),
+           "bp":quarters_json(&o.bp),"bpw":o.bp.len(),"bpl":-1})
 }
 
 fn record(args: &Args) {
@@ -250,8 +250,8 @@ fn record(args: &Args) {
             (ix.ib().to_vec(), ix.bp().words().to_vec(), ix.bp().len())
         }) {
             tr.emit(json!({"e":"out","enc":"std","eng":"index","st":-1,
-                "ib":u64s_json(&ones_of_words(&ib)),"ibw":ib.len(),
-                "bp":u64s_json(&ones_of_words(&bp)),"bpw":bp.len(),"bpl":bpl}));
+                "ib":quarters_json(&ib),"ibw":ib.len(),
+                "bp":quarters_json(&bp),"bpw":bp.len(),"bpl":bpl}));
         } else {
             tr.emit(json!({"e":"out","enc":"std","eng":"index","st":-2,"ib":[],"ibw":-2,"bp":[],"bpw":-2,"bpl":-2}));
         }
@@ -261,8 +261,8 @@ fn record(args: &Args) {
             (ix.ib().to_vec(), ix.bp().words().to_vec(), ix.bp().len())
         }) {
             tr.emit(json!({"e":"out","enc":"simple","eng":"index","st":-1,
-                "ib":u64s_json(&ones_of_words(&ib)),"ibw":ib.len(),
-                "bp":u64s_json(&ones_of_words(&bp)),"bpw":bp.len(),"bpl":bpl}));
+                "ib":quarters_json(&ib),"ibw":ib.len(),
+                "bp":quarters_json(&bp),"bpw":bp.len(),"bpl":bpl}));
         } else {
             tr.emit(json!({"e":"out","enc":"simple","eng":"index","st":-2,"ib":[],"ibw":-2,"bp":[],"bpw":-2,"bpl":-2}));
         }
